@@ -14,14 +14,16 @@ class Router(object):
 
     def db_for_read(self, model, **hints):
         if model._meta.app_label == 'shop':
-            return self._db(model._meta.model_name)
+            # a model allowed on both databases is read and written on `default`
+            db = self._db(model._meta.model_name)
+            return 'default' if db == 'both' else db
         return None
 
     db_for_write = db_for_read
 
     def allow_migrate(self, db, app_label, model_name=None, **hints):
         if app_label == 'shop':
-            return model_name is None or self._db(model_name) == db
+            return model_name is None or self._db(model_name) in (db, 'both')
         return True
 
     def allow_relation(self, a, b, **hints):
